@@ -17,7 +17,7 @@ Admissible(e) ==
     IF e.cls \in {"Periodogram", "MultiTapering", "MultiTapering:adapt", "MultiTapering:unity"} THEN e.nfft >= e.N
     ELSE IF e.cls = "pcorrelogram" THEN e.nfft >= 2 * e.lag + 1
     ELSE IF e.cls = "pminvar" THEN e.nfft >= 2 * e.order
-    ELSE e.nfft > e.order
+    ELSE e.nfft > e.order     \* parametric classes; functional forms are called with admissible NFFT only
 
 Clauses(e) ==
     IF e.ev = "grid" THEN
